@@ -36,6 +36,11 @@ class Check(PropertyCheck):
             if i % 60 == 13:
                 yield self.wide_scenario(rng)
                 continue
+            if i % 12 == 5:
+                yield Scenario(["new", f"mark customblocks {rng.randint(0, 10**6)}"],
+                               {"family": "custom_blocks", "builder": "custom", "rm_machine": 1, "rm_job": 1, "flexible": False,
+                                "filter": "none", "accepted": 0, "episodes": 2, "filter_style": "callable"})
+                continue
             yield self.scenario(rng, tier)
 
     def wide_scenario(self, rng) -> Scenario:
@@ -87,6 +92,8 @@ class Check(PropertyCheck):
             lines.append("fobs is_completed " + rng.choice(["mj", "-", "mj"]))
             lines.append("reset")
             tr.reset()
+        # (graphs pruned by their owner before the hand-over are left to C12/C18: C17 speaks of the graphs the builders yield - in a
+        #  pruned graph `remove_node`'s own sweep of isolated nodes can take an unscheduled operation's node, by design)
         lines += [f"fres {b} {rm} {rj}", "fsnap"]
         n_eps = rng.choice([1, 1, 1, 2, 3, 3])       # later episodes start from the graph updater's stored initial graph
         for ep in range(n_eps):
@@ -110,8 +117,87 @@ class Check(PropertyCheck):
                     for l, o in zip(scenario.lines[:-1], outs[:-1]) if l == "fsnap")
         return scenario.meta.get("accepted", 0) >= 3 and early
 
+    def custom_blocks_oracle(self, seed):
+        """Graphs assembled from the PUBLIC building blocks (not one of the four shipped builders): job nodes without machine nodes,
+        machine nodes without job nodes, with or without the global node; default updater options; every clause after every dispatch."""
+        import jsl
+        from job_shop_lib import graphs as G
+        from job_shop_lib.graphs import _build_agent_task_graph as GB   # add_job_job_edges is not re-exported
+        from job_shop_lib.graphs.graph_updaters import ResidualGraphUpdater
+        from impl import build_instance
+        r = random.Random(seed)
+        _, jobs = gen.gen_instance(r, r.choice(["classic", "irregular", "recirc", "flexible"]), max_jobs=4, max_machines=3, max_ops=3)
+        jobs = [[(ms, max(1, d)) for ms, d in job] for job in jobs]
+        inst = build_instance(jobs)
+        g = G.JobShopGraph(inst)
+        kind = r.choice(["jobs+global", "machines+global", "jobs", "machines", "jobs+machines+global(job side only)"])
+        if "jobs" in kind:
+            G.add_job_nodes(g)
+            G.add_operation_job_edges(g)
+            if kind == "jobs":
+                GB.add_job_job_edges(g)
+        if "machines" in kind:
+            G.add_machine_nodes(g)
+            G.add_operation_machine_edges(g)
+            if kind == "machines":
+                G.add_machine_machine_edges(g)
+        if "global" in kind:
+            G.add_global_node(g)
+            if "jobs" in kind:
+                G.add_job_global_edges(g)
+            if kind == "machines+global":
+                G.add_machine_global_edges(g)
+        d = jsl.Dispatcher(inst)
+        upd = ResidualGraphUpdater(d, g)
+        res = []
+        tr = gen.Tracker(jobs)
+        prev = set()
+        every_machine_used = all(any(m in ms for job in jobs for ms, _ in job) for m in range(inst.num_machines))
+        for ep in range(2):
+            while not tr.done():
+                j, p, m = gen.gen_valid_request(r, tr)
+                tr.take(j)
+                d.dispatch(inst.jobs[j][p], None if m == "none" else int(m))
+                gg = upd.job_shop_graph
+                v = oracles.View(inst, d.schedule.schedule)
+                scheduled = set(v.sop)
+                completed = scheduled - {x.operation.operation_id for x in v.ongoing(None)}
+                removed = {i for i, x in enumerate(gg.removed_nodes) if x}
+                NT = type(gg.nodes[0].node_type)
+                for i in removed:
+                    node = gg.nodes[i]
+                    if node.node_type == NT.OPERATION and node.operation.operation_id not in scheduled:
+                        res.append(("removed-unscheduled", f"[{kind}] node of unscheduled operation {node.operation.operation_id} removed"))
+                    elif node.node_type == NT.MACHINE and any(o.operation_id not in scheduled for job in inst.jobs for o in job
+                                                              if node.machine_id in o.machines):
+                        res.append(("machine-early", f"[{kind}] machine node {node.machine_id} removed while it has unscheduled operations"))
+                    elif node.node_type == NT.JOB and any(o.operation_id not in scheduled for o in inst.jobs[node.job_id]):
+                        res.append(("job-early", f"[{kind}] job node {node.job_id} removed while it has unscheduled operations"))
+                for oid in completed:
+                    if not gg.removed_nodes[oid]:
+                        res.append(("completed-kept", f"[{kind}] node of completed operation {oid} is still in the graph"))
+                if not prev <= removed:
+                    res.append(("not-permanent", f"[{kind}] nodes {sorted(prev - removed)} were removed and are back"))
+                prev = removed
+                if any(u in removed or w in removed for u, w in gg.graph.edges()):
+                    res.append(("dangling-edge", f"[{kind}] an edge touches a removed node"))
+                if set(gg.graph.nodes()) != set(range(len(gg.nodes))) - removed:
+                    res.append(("mask-mismatch", f"[{kind}] removed_nodes mask does not match the nodes present in the networkx graph"))
+                if res:
+                    return res[:3]
+            if every_machine_used and not all(upd.job_shop_graph.removed_nodes):
+                left = [str(upd.job_shop_graph.nodes[i].node_type).split(".")[-1] for i, x in enumerate(upd.job_shop_graph.removed_nodes) if not x]
+                res.append(("not-all-removed", f"[{kind}] schedule complete but {len(left)} nodes were never removed ({sorted(set(left))})"))
+                return res
+            d.reset()
+            tr.reset()
+            prev = set()
+        return res
+
     def oracle(self, impl, scenario, index, line, out, ctx):
         res = []
+        if line.startswith("mark customblocks"):
+            return self.custom_blocks_oracle(int(line.split()[2]))
         if line == "reset":
             ctx["removed"] = None
             return res
